@@ -41,7 +41,7 @@ describe(
         "for any task count; shared cache/database state is touched under the lock; DOE order is fixed before "
         "the parallel run."
     ),
-    decided=["13.1 index provenance", "13.2 one answer per task", "13.3 failure isolation / callbacks / shutdown", "13.4 lock discipline", "13.5 DOE pre-seeding", "13.6 definite assignment for every task count", "13.8 discipline executors keep one slot per input", "13.9 one deep copy per discipline"],
+    decided=["13.1 index provenance", "13.2 one answer per task", "13.3 failure isolation / callbacks / shutdown", "13.4 lock discipline", "13.5 DOE pre-seeding", "13.6 definite assignment for every task count", "13.8 discipline executors keep one slot per input", "13.9 one deep copy per discipline", "13.11 queues created per execution"],
     not_decided=["numerical equality of results between back-ends (they run the same callables)", "OS scheduling"],
 )
 
